@@ -251,3 +251,70 @@ pub unsafe fn stub2_usize_load_atomic(a: Address, _o: core::sync::atomic::Orderi
 pub unsafe fn stub2_usize_load_atomic(a: Address, o: core::sync::atomic::Ordering) -> usize {
     <usize as mmtk::util::metadata::MetadataValue>::load_atomic(a, o)
 }
+
+
+// ---------------------------------------------------------------------------------------------
+// C37 composition: typed offset-vector window and the reference scan.
+//
+// `SideMetadataSpec::scan_non_zero_values` is replaced (Kani stub) by the naive word-by-word scan
+// below, which reads each bit with the real `SideMetadataSpec::load`.  That the real scan visits exactly the
+// non-zero regions in ascending order is what C22 decides (scan harnesses); C37 composes on it.
+// Natively (replay) nothing is stubbed: the real scan runs.
+
+pub const OV_LEN: usize = 4;
+pub static mut OV: [usize; OV_LEN] = [0; OV_LEN];
+
+#[cfg(kani)]
+fn ov_index(a: usize) -> usize {
+    let b = swin_base() + unsafe { SWIN2_DELTA };
+    if a >= b && a % 8 == 0 && a < b + OV_LEN * 8 {
+        (a - b) / 8
+    } else {
+        OV_LEN
+    }
+}
+
+#[cfg(kani)]
+pub unsafe fn stub3_usize_store_atomic(a: Address, v: usize, _o: core::sync::atomic::Ordering) {
+    let i = ov_index(a.as_usize());
+    kani::assert(i < OV_LEN, "store outside the offset-vector window");
+    OV[i] = v;
+}
+#[cfg(not(kani))]
+pub unsafe fn stub3_usize_store_atomic(a: Address, v: usize, o: core::sync::atomic::Ordering) {
+    <usize as mmtk::util::metadata::MetadataValue>::store_atomic(a, v, o)
+}
+
+#[cfg(kani)]
+pub unsafe fn stub3_usize_load_atomic(a: Address, _o: core::sync::atomic::Ordering) -> usize {
+    let i = ov_index(a.as_usize());
+    kani::assert(i < OV_LEN, "load outside the offset-vector window");
+    OV[i]
+}
+#[cfg(not(kani))]
+pub unsafe fn stub3_usize_load_atomic(a: Address, o: core::sync::atomic::Ordering) -> usize {
+    <usize as mmtk::util::metadata::MetadataValue>::load_atomic(a, o)
+}
+
+/// Read offset-vector entry `i` (oracle side).
+pub fn ov_get(i: usize) -> usize {
+    #[cfg(kani)]
+    unsafe {
+        OV[i]
+    }
+    #[cfg(not(kani))]
+    unsafe {
+        *((swin_base() + SWIN2_DELTA + i * 8) as *const usize)
+    }
+}
+
+/// Reference scan standing for `SideMetadataSpec::scan_non_zero_values` (one bit per word specs).
+pub fn stub_scan_nzv<T: mmtk::util::metadata::MetadataValue, F: FnMut(Address)>(spec: &SideMetadataSpec, start: Address, end: Address, visit: &mut F) {
+    let mut a = start;
+    while a < end {
+        if unsafe { spec.load::<u8>(a) } != 0 {
+            visit(a);
+        }
+        a += 8usize;
+    }
+}
